@@ -48,7 +48,7 @@ def replay_filter(inp):
                 info.av = np.arange(n) + 0.5 * i
                 info.sc = np.arange(n) * 1.0
                 info.model_name = np.array(['ma', 'mb'][:n], dtype='U30')
-                info.model_id = np.arange(n)
+                info.model_id = np.arange(n)[::-1] * 2 + 3
                 info.model_fluxes = None
                 info.meta.model_dir, info.meta.filters, info.meta.extinction_law = 'MODELS', [{'name': 'f0', 'aperture_arcsec': 3.0}], None
                 infos.append(info)
@@ -89,7 +89,8 @@ def replay_filter(inp):
                     return True, {'source': info.source.name, 'criterion': float(cr), 'threshold': inp['thr'], 'in_good': info.source.name in gn}
             for o in good + bad:
                 ref = infos[names.index(o.source.name)]
-                if not (np.array_equal(o.chi2, ref.chi2, equal_nan=True) and np.array_equal(o.av, ref.av) and list(o.model_name) == list(ref.model_name)):
+                if not (np.array_equal(o.chi2, ref.chi2, equal_nan=True) and np.array_equal(o.av, ref.av) and list(o.model_name) == list(ref.model_name)
+                        and list(o.model_id) == list(ref.model_id)):
                     return True, {'record changed': o.source.name}
             return False, {}
     finally:
